@@ -365,7 +365,8 @@ class World:
         self._saved = {
             'cwd': os.getcwd(),
             'env': {k: os.environ.get(k) for k in
-                    ('HOME', 'PICO8_LUA_PATH', 'TMPDIR')},
+                    set(('HOME', 'PICO8_LUA_PATH', 'TMPDIR')) |
+                    set(self.env)},
             'reclimit': sys.getrecursionlimit(),
             'streams': (util._write_stream, util._error_stream),
             'stdout': sys.stdout, 'stderr': sys.stderr,
@@ -391,6 +392,10 @@ class World:
             os.environ['TMPDIR'] = self.p('tmp')
         os.makedirs(os.environ['TMPDIR'], exist_ok=True)
         tempfile.tempdir = None          # forget the cached directory
+        for k, v in self.env.items():
+            if k not in ('HOME', 'PICO8_LUA_PATH', 'TMPDIR') and \
+                    v is not None:
+                os.environ[k] = self.subst(v)
         if 'HOME' not in self.env:
             os.environ['HOME'] = self.p('home')
         os.chdir(self.p(self.cwd) if self.cwd else self.root)
